@@ -4,9 +4,10 @@ import Driver.OpsDiffGeo
 import Driver.OpsTopo
 import Driver.OpsMesh
 import Driver.OpsSolve
+import Driver.OpsHistory
 open LapyVerif.Driver
 
-def allOps : List (String × P String) := femOps ++ diffGeoOps ++ topoOps ++ meshOps ++ solveOps ++ heatOps
+def allOps : List (String × P String) := femOps ++ diffGeoOps ++ topoOps ++ meshOps ++ solveOps ++ heatOps ++ historyOps ++ ctorOps
 
 def handle (line : String) : String :=
   let toks := ((line.trimAscii.toString.splitOn " ").filter (· ≠ "")).toArray
